@@ -7,7 +7,7 @@
 (* prescribes in words, is duplicate free, and is well formed exactly when *)
 (* the request is meaningful.                                              *)
 (***************************************************************************)
-EXTENDS Integers, Sequences, FiniteSets, TLC
+EXTENDS Integers, Sequences, FiniteSets, TLC, Json
 CONSTANTS Vars
 VARIABLES r1, r2, optSet
 vars == <<r1, r2, optSet>>
@@ -78,4 +78,14 @@ ListOpsOK ==
   /\ SetOf(ListUnion(i1, o2)) = SetOf(i1) \cup SetOf(o2) /\ NoDup(ListUnion(i1, o2))
   /\ SetOf(ListInter(i1, i2)) = SetOf(i1) \cap SetOf(i2) /\ NoDup(ListInter(i1, i2))
   /\ SetOf(ListDiff(o1, i2)) = SetOf(o1) \ SetOf(i2) /\ NoDup(ListDiff(o1, i2))
+
+(* ---- generator mode: every state with the interface the code must compute (ORDERED lists, as coded) or the refusal it owes;  ---- *)
+(* ---- lib/itfdrv.py replays all of them into the real compose / quotient / merge / predicates on contracts without constraints ---- *)
+M_clash == SetOf(M_in) \cap SetOf(M_out) # {}
+Emit == PrintT(<<"CASE", ToJson([i1 |-> i1, o1 |-> o1, i2 |-> i2, o2 |-> o2, opt |-> opt,
+   compose |-> [ok |-> C_keepOK /\ C_can, inv |-> C_in, outv |-> C_out],
+   quotient |-> [ok |-> Q_can /\ Q_addlOK, inv |-> Q_in, outv |-> Q_out],
+   merge |-> [ok |-> ~M_clash, inv |-> M_in, outv |-> M_out],
+   can_compose |-> C_can, can_quotient |-> Q_can,
+   shares_io |-> (SetOf(i1) = SetOf(i2) /\ SetOf(o1) = SetOf(o2))])>>)
 =====================================================================
